@@ -174,7 +174,10 @@ def generate(seed: int, tier: str = "quick") -> dict:
             t = _safe_tick(ct + rp.randint(-2000, 2000), sp)
             o = {"op": "uni.price_to_tick", "a": {"price": _s(_mid_price(t, quote[1], base[1]))}}
         elif kind == "reject":
-            r = rp.choice(["sell_too_much", "buy_too_much", "add_too_much", "add_all_of_one_too_much_of_other", "remove_unknown", "lower_gt_upper_value"])
+            r = rp.choice(["sell_too_much", "buy_too_much", "add_too_much", "add_all_of_one_too_much_of_other", "remove_unknown", "lower_gt_upper_value",
+                           "degenerate_price_range", "by_value_on_the_edge"])
+            if sp < 8 and r in ("degenerate_price_range", "by_value_on_the_edge"):
+                r = "lower_gt_upper_value"  # (both need room inside one spacing cell)
             if r == "sell_too_much":
                 o = {"op": "uni.sell", "a": {"amount": {"f": f"wallet:{B}", "x": "1.5"}}}
             elif r == "buy_too_much":
@@ -191,6 +194,22 @@ def generate(seed: int, tier: str = "quick") -> dict:
                 near = rp.choice(["1", "0.999996", "1.000004"])  # inside the snap zone only: 0.99999 is the threshold itself (a discontinuity) and 0.99998 leaves a remainder of 2e-5 of the balance, whose relative error is the deposit's rounding error times 5e4
                 xb, xq = (near, "3") if rp.random() < 0.5 else ("3", near)
                 o = {"op": "uni.add_by_tick", "a": {"lo": lo, "hi": hi, "base": {"f": f"wallet:{B}", "x": xb}, "quote": {"f": f"wallet:{Q}", "x": xq}, "where": where}}
+                n_created += 1
+            elif r == "degenerate_price_range":
+                # two prices that belong to the same usable tick: no range at all, whichever token is token0
+                g = ((ct // sp) + rp.randint(-6, 6)) * sp
+                p_a, p_b = _mid_price(g + 1, quote[1], base[1]), _mid_price(g + 2, quote[1], base[1])
+                o = {"op": "uni.add", "a": {"lower_price": _s(min(p_a, p_b)), "upper_price": _s(max(p_a, p_b)), "base": {"f": f"wallet:{B}", "x": "0.1"}, "quote": {"f": f"wallet:{Q}", "x": "0.1"}, "where": "in"}}
+                n_created += 1
+            elif r == "by_value_on_the_edge":
+                # the usable tick of the current price IS one bound of the range (the price itself well inside the cell, so one
+                # tick of float noise cannot move it to the next cell): no side of the range can tell a two-sided deposit ratio
+                g = int(round(ct / sp)) * sp
+                if abs(ct - g) > sp // 4:
+                    continue
+                w = rp.randint(1, 8) * sp
+                lo, hi = (g - w, g) if rp.random() < 0.5 else (g, g + w)
+                o = {"op": "uni.add_by_value", "a": {"lo": lo, "hi": hi, "value": {"f": f"wallet:{Q}", "x": "0.1"}, "where": "in"}}
                 n_created += 1
             elif r == "remove_unknown":
                 o = {"op": "uni.remove", "a": {"pos": {"lo": 887220 // sp * sp - sp, "hi": 887220 // sp * sp}}}
